@@ -205,33 +205,35 @@ theorem clipFrom_from (a : Entry) (rest : List Entry) :
 
 /-! ### selection-range chains -/
 
-theorem dedupAdj_head (a : Range) (rest : List Range) :
-    ∃ t, dedupAdj (a :: rest) = a :: t := by
-  induction rest generalizing a with
-  | nil => exact ⟨[], rfl⟩
-  | cons b rest ih =>
-    simp only [dedupAdj]
-    split
-    · rename_i h; subst h; exact ih a
-    · exact ⟨_, rfl⟩
-
-theorem chainStrict_dedupAdj (rs : List Range) (h : chainNested rs = true) :
-    chainStrict (dedupAdj rs) = true := by
-  induction rs with
+theorem chainStrict_growFrom (last : Range) (rs : List Range) :
+    chainStrict (last :: growFrom last rs) = true := by
+  induction rs generalizing last with
   | nil => rfl
-  | cons a rest ih =>
-    cases rest with
-    | nil => rfl
-    | cons b rest =>
-      simp only [chainNested, Bool.and_eq_true] at h
-      have ihb := ih h.2
-      simp only [dedupAdj]
-      split
-      · exact ihb
-      · rename_i hne
-        obtain ⟨t, ht⟩ := dedupAdj_head b rest
-        rw [ht] at ihb ⊢
-        simp only [chainStrict, Bool.and_eq_true, bne_iff_ne, ne_eq]
-        exact ⟨⟨h.1, hne⟩, ihb⟩
+  | cons r rest ih =>
+    simp only [growFrom]
+    split
+    · rename_i h
+      simp only [Bool.and_eq_true, bne_iff_ne, ne_eq] at h
+      simp only [chainStrict, Bool.and_eq_true, bne_iff_ne, ne_eq]
+      exact ⟨⟨h.1, fun e => h.2 e.symm⟩, ih r⟩
+    · exact ih last
+
+theorem chainStrict_grow (rs : List Range) : chainStrict (grow rs) = true := by
+  cases rs with
+  | nil => rfl
+  | cons a rest => exact chainStrict_growFrom a rest
+
+/-- on a chain that already grows strictly nothing is removed -/
+theorem growFrom_id (last : Range) (rs : List Range) (h : chainStrict (last :: rs) = true) :
+    growFrom last rs = rs := by
+  induction rs generalizing last with
+  | nil => rfl
+  | cons r rest ih =>
+    simp only [chainStrict, Bool.and_eq_true, bne_iff_ne, ne_eq] at h
+    simp only [growFrom]
+    have : (r.contains last && r != last) = true := by
+      simp only [Bool.and_eq_true, bne_iff_ne, ne_eq]
+      exact ⟨h.1.1, fun e => h.1.2 e.symm⟩
+    rw [if_pos this, ih r h.2]
 
 end LspShape
